@@ -287,6 +287,13 @@ def run_case(seed, i, tier):
         rng.shuffle(cand)
         for c in cand[:2 if quick else 6]:
             io_runs.append(("enospc=%d" % c, "tmpdir_full"))
+    if tmp_total:
+        src_total = sum(d["bytes"] for d in descr if d.get("container"))
+        cand = {0, 1, rng.randrange(src_total), src_total - 1, src_total + rng.randrange(tmp_total), rng.randrange(min(src_total, 9000))}
+        cand = sorted(c for c in cand if c >= 0)
+        rng.shuffle(cand)
+        for c in cand[:2 if quick else 5]:
+            io_runs.append(("eio=%d" % c, "read_error"))
     if base.stdout:
         cand = {0, 1, len(base.stdout) - 1, rng.randrange(len(base.stdout)), rng.randrange(min(len(base.stdout), 5000))}
         cand = sorted(cand)
@@ -302,6 +309,8 @@ def run_case(seed, i, tier):
         cr.faults[kind] += 1
         if b"No space left on device" in res.stderr:
             cr.probes["enospc_reported_by_extraction"] += 1
+        if b"Input/output error" in res.stderr:
+            cr.probes["eio_reported"] += 1
         vs = account(res, p2, kind)
         if not vs and kind == "stdout_reader_gone" and not res.trace.signals_delivered:
             k = int(spec.split("=")[1])
@@ -375,7 +384,7 @@ RULE = ("one case = 1..3 compressed/archived journal or evtx sources (shipped No
         "source; a base run without signal plus SIGINT delivered at step k for k in a stratified sample of the "
         "temp-file life cycle (quick) or every k in 0..N (thorough), 15% with a second SIGINT; plus runs in which "
         "TMPDIR fills up after N bytes (ENOSPC, N on 0/1/64KiB edges/random) or stdout's reader goes away after N bytes "
-        "(EPIPE), 30% of them with a SIGINT as well. non-trivial = every "
+        "(EPIPE) or reads of the inputs and of the extracted copies fail after N bytes (EIO), 30% of them with a SIGINT as well. non-trivial = every "
         "run (each ends in process exit with a private TMPDIR inspected); distinct = (scenario, signal steps, decision sequence)")
 ASSUMPTIONS = ["SIGINT is delivered from handler registration onward (before that the default action kills the process and no temp file exists yet)",
                "the handler closure runs on a dedicated thread, serially per signal, as the ctrlc crate does",
